@@ -21,9 +21,9 @@ func TestMain(m *testing.M) { stats.Main(m, "C08") }
 
 func assumptions() {
 	stats.Assume("coordinates are finite; boxes have positive width and height; region clauses are judged for closed vertex lists only (first vertex == last vertex)")
-	stats.Assume("tolerances: output vertices within 1e-9*(1+max|coordinate|) of the box; membership asked only at points farther than 1e-6*(1+max|coordinate|) from the input ring and the box sides and half that from the output ring; area additivity within 1e-9 * sum of |shoelace terms| + 1e-13*scale^2")
-	stats.Assume("'disjoint from the box' is read as bound-disjoint by more than 1e-9*(1+scale); a ring that meets the box only in a set of measure zero may yield nil or a zero-area ring (DESIGN C08 'not demanded')")
-	stats.Assume("clip.Geometry on lines is compared with clip.LineString (judged by C07); nil is demanded when the exact line model finds nothing inside, non-nil when it finds a piece longer than 2e-9*(1+scale)")
+	stats.Assume("tolerances have no absolute unit: output ring vertices within 64 eps * largest |box coordinate| of the box per axis; membership asked only at points farther than 1e-6 * larger box side + 1000 eps * max|coordinate| from the input ring and the box sides and half that from the output ring; area additivity (shoelace relative to the box corner) within 1e-12 * sum of |terms| + (output vertices) * (largest single-intersection bound 8 eps (|coordinate| + |edge extent|) of the ring's edges) * (box width + height)")
+	stats.Assume("'disjoint from the box' is read as bound-disjoint by more than the largest two-intersection rounding bound of the ring's edges; a ring that meets the box only in a set of measure zero may yield nil or a zero-area ring (DESIGN C08 'not demanded')")
+	stats.Assume("clip.Geometry on lines is compared with clip.LineString (judged by C07); nil is demanded when the exact line model finds nothing inside, non-nil when it finds a piece longer than 2e-9*max|coordinate|")
 }
 
 // ---------------------------------------------------------------- generators
@@ -86,7 +86,7 @@ func sortByAngle(ps [][2]float64, cx, cy float64) {
 func drawRingCase(t *rapid.T) (Case, string) {
 	var c Case
 	c.QSeed = rapid.Uint64().Draw(t, "qseed")
-	class := rapid.IntRange(0, 9).Draw(t, "class")
+	class := rapid.IntRange(0, 11).Draw(t, "class")
 	if class <= 4 {
 		// ---- lattice pictures (vertices on, edges along the box boundary)
 		f, fname := drawFrame(t)
@@ -200,7 +200,10 @@ func drawRingCase(t *rapid.T) (Case, string) {
 		c.Box = gen.FromBound(box)
 		c.G = gen.G{V: finishRing(t, ps)}
 		c.SplitX, c.SplitY = gen.F(f.x.at(sx)), gen.F(f.y.at(sy))
-		return c, name + " / " + fname
+		return rescale(t, c), name + " / " + fname
+	}
+	if class >= 10 {
+		return rescale(t, drawFarRing(t, c)), "float:small box far from the origin, ring edges crossing at shallow angles"
 	}
 
 	// ---- general position
@@ -248,7 +251,134 @@ func drawRingCase(t *rapid.T) (Case, string) {
 	c.G = gen.G{V: finishRing(t, ps)}
 	c.SplitX = gen.F(box.Min[0] + rapid.Float64Range(0.1, 0.9).Draw(t, "fx")*(box.Max[0]-box.Min[0]))
 	c.SplitY = gen.F(box.Min[1] + rapid.Float64Range(0.1, 0.9).Draw(t, "fy")*(box.Max[1]-box.Min[1]))
-	return c, name
+	return rescale(t, c), name
+}
+
+// drawFarRing: a box of size 1..100 at offsets up to 2e7 (projected metres) or
+// 1e9, and a ring whose vertices lie next to the box's edge lines or follow
+// each other at slopes 1e-4..1e-1 against an axis.
+func drawFarRing(t *rapid.T, c Case) Case {
+	off := func(l string) float64 {
+		switch rapid.IntRange(0, 2).Draw(t, l+"k") {
+		case 0:
+			return rapid.Float64Range(-2e7, 2e7).Draw(t, l)
+		case 1:
+			return rapid.Float64Range(1e8, 1e9).Draw(t, l) * float64(2*rapid.IntRange(0, 1).Draw(t, l+"s")-1)
+		}
+		return rapid.Float64Range(-2e6, 2e6).Draw(t, l)
+	}
+	w, h := rapid.Float64Range(1, 100).Draw(t, "w"), rapid.Float64Range(1, 100).Draw(t, "h")
+	box := orb.Bound{Min: orb.Point{off("ox"), off("oy")}}
+	box.Max = orb.Point{box.Min[0] + w, box.Min[1] + h}
+	size := [2]float64{w, h}
+	n := rapid.IntRange(3, 10).Draw(t, "n")
+	var ps []orb.Point
+	for i := 0; i < n; i++ {
+		var q orb.Point
+		switch k := rapid.IntRange(0, 5).Draw(t, "pk"); {
+		case k == 0 || (i == 0 && k >= 3):
+			q = orb.Point{rapid.Float64Range(box.Min[0]-w, box.Max[0]+w).Draw(t, "x"), rapid.Float64Range(box.Min[1]-h, box.Max[1]+h).Draw(t, "y")}
+		case k <= 2:
+			d := rapid.IntRange(0, 1).Draw(t, "axis")
+			edge := []float64{box.Min[d], box.Max[d]}[rapid.IntRange(0, 1).Draw(t, "side")]
+			q[d] = edge + size[d]*rapid.Float64Range(-1e-3, 1e-3).Draw(t, "perp")
+			q[1-d] = rapid.Float64Range(box.Min[1-d]-size[1-d]/2, box.Max[1-d]+size[1-d]/2).Draw(t, "along")
+		default:
+			d := rapid.IntRange(0, 1).Draw(t, "axis")
+			m := math.Pow(10, -rapid.Float64Range(1, 4).Draw(t, "slope")) * float64(2*rapid.IntRange(0, 1).Draw(t, "ms")-1)
+			l := size[d] * rapid.Float64Range(0.2, 3).Draw(t, "len") * float64(2*rapid.IntRange(0, 1).Draw(t, "ls")-1)
+			q[d] = ps[i-1][d] + l
+			q[1-d] = ps[i-1][1-d] + l*m
+		}
+		ps = append(ps, q)
+	}
+	c.Box = gen.FromBound(box)
+	c.G = gen.G{V: finishRing(t, ps)}
+	c.SplitX = gen.F(box.Min[0] + rapid.Float64Range(0.1, 0.9).Draw(t, "fx")*w)
+	c.SplitY = gen.F(box.Min[1] + rapid.Float64Range(0.1, 0.9).Draw(t, "fy")*h)
+	return c
+}
+
+// scaleGeom multiplies every coordinate of g by 2^k (exact).
+func scaleGeom(g orb.Geometry, k int) orb.Geometry {
+	pt := func(p orb.Point) orb.Point { return orb.Point{math.Ldexp(p[0], k), math.Ldexp(p[1], k)} }
+	pts := func(ps []orb.Point) []orb.Point {
+		if ps == nil {
+			return nil
+		}
+		out := make([]orb.Point, len(ps))
+		for i, p := range ps {
+			out[i] = pt(p)
+		}
+		return out
+	}
+	switch v := g.(type) {
+	case orb.Point:
+		return pt(v)
+	case orb.MultiPoint:
+		return orb.MultiPoint(pts(v))
+	case orb.LineString:
+		return orb.LineString(pts(v))
+	case orb.Ring:
+		return orb.Ring(pts(v))
+	case orb.MultiLineString:
+		if v == nil {
+			return v
+		}
+		out := make(orb.MultiLineString, len(v))
+		for i := range v {
+			out[i] = pts(v[i])
+		}
+		return out
+	case orb.Polygon:
+		if v == nil {
+			return v
+		}
+		out := make(orb.Polygon, len(v))
+		for i := range v {
+			out[i] = pts(v[i])
+		}
+		return out
+	case orb.MultiPolygon:
+		if v == nil {
+			return v
+		}
+		out := make(orb.MultiPolygon, len(v))
+		for i := range v {
+			if v[i] != nil {
+				out[i] = scaleGeom(v[i], k).(orb.Polygon)
+			}
+		}
+		return out
+	case orb.Collection:
+		if v == nil {
+			return v
+		}
+		out := make(orb.Collection, len(v))
+		for i := range v {
+			out[i] = scaleGeom(v[i], k)
+		}
+		return out
+	case orb.Bound:
+		return orb.Bound{Min: pt(v.Min), Max: pt(v.Max)}
+	}
+	return g
+}
+
+// rescale multiplies a whole case by 2^k, k in -60..60, one time in four: an
+// exact change of the length scale under which every clause must be judged
+// the same way.
+func rescale(t *rapid.T, c Case) Case {
+	if rapid.IntRange(0, 3).Draw(t, "rescale") != 0 {
+		return c
+	}
+	k := rapid.IntRange(-60, 60).Draw(t, "k")
+	sc := func(p gen.P) gen.P { return gen.P{gen.F(math.Ldexp(float64(p[0]), k)), gen.F(math.Ldexp(float64(p[1]), k))} }
+	c.Box.Min, c.Box.Max = sc(c.Box.Min), sc(c.Box.Max)
+	c.SplitX, c.SplitY = gen.F(math.Ldexp(float64(c.SplitX), k)), gen.F(math.Ldexp(float64(c.SplitY), k))
+	c.G = gen.G{V: scaleGeom(c.G.V, k)}
+	stats.Class("rescaled by 2^k, k in -60..60")
+	return c
 }
 
 // ringFrom draws a single closed ring for the polygon generator (lattice or float).
@@ -320,7 +450,7 @@ func drawGeometryCase(t *rapid.T) (Case, string) {
 	} else {
 		name += " / float"
 	}
-	return c, name
+	return rescale(t, c), name
 }
 
 func record(c Case, group string) {
@@ -372,6 +502,8 @@ func TestPropRings(t *testing.T) {
 		stats.Try(rt, "TestPropRings", c, func() error { return checkCase(c) })
 		record(c, "ring")
 	})
+	sh, _ := stats.Shard()
+	stats.Note(fmt.Sprintf("worst_area_error_over_tolerance_shard%d", sh), fmt.Sprintf("%.3g", worstArea))
 }
 
 func TestPropGeometry(t *testing.T) {
